@@ -44,7 +44,11 @@ func funcName(f *ssa.Function) string {
 	o := originOf(f)
 	if obj := o.Object(); obj != nil {
 		if fo, ok := obj.(*types.Func); ok {
-			return stripTypeArgs(fo.FullName())
+			s := stripTypeArgs(fo.FullName())
+			if a, ok := nameAlias[s]; ok {
+				return a
+			}
+			return s
 		}
 	}
 	// bound method closures / thunks: "(*T).m$bound"
@@ -228,7 +232,7 @@ func fieldKeyOf(x ssa.Value, idx int) string {
 	if st == nil {
 		return name + ".?"
 	}
-	return name + "." + st.Field(idx).Name()
+	return name + "." + fname(st.Field(idx))
 }
 
 // fieldPath: for a load (UnOp *) of FieldAddr chains, returns the dotted path of
@@ -245,12 +249,12 @@ func fieldPath(v ssa.Value) (root ssa.Value, path []string) {
 			return v, path
 		case *ssa.FieldAddr:
 			st := derefStruct(x.X.Type())
-			path = append([]string{st.Field(x.Field).Name()}, path...)
+			path = append([]string{fname(st.Field(x.Field))}, path...)
 			v = x.X
 			continue
 		case *ssa.Field:
 			st := derefStruct(x.X.Type())
-			path = append([]string{st.Field(x.Field).Name()}, path...)
+			path = append([]string{fname(st.Field(x.Field))}, path...)
 			v = x.X
 			continue
 		case *ssa.ChangeType:
@@ -731,12 +735,12 @@ func storesTo(addr ssa.Value) []*ssa.Store {
 // isParam reports whether v is the parameter named name of its function.
 func isParamNamed(v ssa.Value, name string) bool {
 	p, ok := v.(*ssa.Parameter)
-	return ok && p.Name() == name
+	return ok && pname(p) == name
 }
 
 func paramNamed(fn *ssa.Function, name string) *ssa.Parameter {
 	for _, p := range fn.Params {
-		if p.Name() == name {
+		if pname(p) == name {
 			return p
 		}
 	}
@@ -849,11 +853,24 @@ func atomStrD(v ssa.Value, d int) string {
 		}
 		return x.Value.ExactString()
 	case *ssa.Parameter:
-		return "$" + x.Name()
+		return "$" + pname(x)
 	case *ssa.FreeVar:
+		// a captured parameter of the enclosing function goes by that parameter's canonical name
+		if b := freeVarBinding(x); b != nil {
+			if p, ok := cellValue(b).(*ssa.Parameter); ok && p.Name() == x.Name() {
+				return "$" + pname(p)
+			}
+			if a, ok := resolveVal(b).(*ssa.Alloc); ok {
+				if sts := storesTo(a); len(sts) >= 1 {
+					if p, ok := sts[0].Val.(*ssa.Parameter); ok && p.Name() == x.Name() {
+						return "$" + pname(p)
+					}
+				}
+			}
+		}
 		return "$" + x.Name()
 	case *ssa.Global:
-		return x.Name()
+		return gname(x)
 	case *ssa.Convert:
 		return atomStrD(x.X, d+1)
 	case *ssa.ChangeType:
@@ -878,7 +895,7 @@ func atomStrD(v ssa.Value, d int) string {
 			} else if fv, ok := resolveFree(x.Call.Value).(*ssa.FreeVar); ok {
 				n = fv.Name()
 			} else if pv, ok := resolveVal(x.Call.Value).(*ssa.Parameter); ok {
-				n = "$" + pv.Name()
+				n = "$" + pname(pv)
 			}
 		}
 		var as []string
